@@ -35,7 +35,7 @@ TEXT = {
               'rendering an if/elsif/else or unless chain equals rendering the body that List.find? selects - the first branch '
               'whose test is not falsy - or failing with that test\'s error at its own tag, or nothing (if_denotation, '
               'if_denotation_selects, if_node_denotation); likewise the clauses of a case over the first clause that is an else '
-              'or lists a value equal to the subject (case_denotation, case_node_denotation, case_subject_err). Tie: the `cond` stream answers every case by the model and the '
+              'or lists a value equal to the subject (case_denotation, case_node_denotation, case_subject_err). From source bytes (Proofs.C10Source, through scan_spell, the block parser and the compiler, for every good delimiter set and all self-contained bodies A, B): the one-line sources {% if c %}A{% else %}B{% endif %} and {% unless c %}B{% else %}A{% endunless %} give the same result of run for every condition text c, value layer and environment (if_else_unless_dual_source; the one-line condition is needed: with a newline inside a body the two forms can report the same failure at different lines, dual_lines_differ; on any number of lines, for bodies without include and a start line >= 1, the two results agree up to the line of the error - same output, or errors with the same cause, message and path flag, if_else_unless_dual_up_to_line_source, by a proof that rendering does not depend on the line numbers of the nodes except in the line of an error, lineRel_renderNode), both fail with a syntax error at the line of their tag when c is not an expression (if_else_bad_condition_source), and {% if c %}A{% endif %} renders nothing when c evaluates falsy and succeeds exactly when A does, with the output of A, when truthy (if_source, unless_source); for a whole chain {% if c0 %}A0{% elsif c1 %}A1 ... {% else %}E{% endif %} with any number of clauses (all compiling): the block succeeds exactly when the body of the first clause whose condition is truthy (or the else clause) does, as a template of its own where it stands, with exactly that output - later conditions and bodies play no part - and renders nothing when every condition is falsy (if_chain_first_source, if_chain_clause_source, if_chain_none_source: if_denotation read on source text); {% case s %}{% when vs %}A{% else %}E{% endcase %} succeeds exactly as A when one of the when values equals the subject and exactly as E when none does (case_when_else_source). Tie: the `cond` stream answers every case by the model and the '
               'real engine, and an independent reference (harness/ref_prog.go) checks the selected marker, laziness and the '
               'if/unless duality on the real output.'),
     "design_ref": 'DESIGN.md 6 C10',
